@@ -49,7 +49,8 @@ def has_dup_keys(cfg):
 
 
 def pushdown_applies(c):
-    return c["shape"] == "full-scan" and c.get("limit") is not None and c["limit"] > 0
+    """single clause that fixes neither subject, predicate nor object; positive LIMIT smaller than the graph"""
+    return c.get("pd_mask") is not None and c.get("limit") is not None and 0 < c["limit"] < len(c["pd_mask"])
 
 
 # ---------------------------------------------------------------- rendering cases as Corr.v calls
@@ -104,7 +105,7 @@ def e2e_item(c):
         keys = T.keys_term(c.get("cfg") or [], ids)
         seen = T.keys_term(c.get("cfg_seen") or [], ids)
         lim = "None" if c.get("limit") is None else "(Some %s)" % T.zlit(c["limit"])
-        pd = "true" if c["shape"] == "full-scan" else "false"
+        pd = "None" if c.get("pd_mask") is None else "(Some [%s])" % "; ".join("true" if b else "false" for b in c["pd_mask"])
         exact = "false" if c["shape"] == "two-clause" else "true"
         r = None if res["outcome"] != "ok" else t.rowlist(res.get("rows") or [], ids)
         return "e2e12_verdict %s %s %s %s %s %s %s %s" % (outs, keys, seen, lim, pd, exact, t.rowlist(base, ids), T.opt(r))
@@ -178,9 +179,9 @@ def run(ctx):
             ctx.violation({"kind": "ORDER BY / LIMIT through the planner disagrees with the model", "case": c})
         elif v == 3:
             ctx.violation({"kind": "formatted string differs from the Gallina formatter", "case": c})
-        elif v in (4, 5):
-            cl = value_order_classes(c["base"].get("rows") or [], [k["b"] for k in c.get("cfg") or []])
-            if v == 5 and pushdown_applies(c):
+        elif v in (4, 5, 6):
+            cl = value_order_classes(c["base"].get("rows") or [], [k["b"] for k in c.get("cfg") or []]) if v != 6 else set()
+            if v in (5, 6) and pushdown_applies(c):
                 cl = {"limit_pushdown"}
             if has_dup_keys(c.get("cfg")) and [k["b"] for k in c.get("cfg_seen") or []] != \
                     list(dict.fromkeys(k["b"] for k in c["cfg"])):
